@@ -141,15 +141,13 @@ def exFU : Existing :=
     backend := fun ns n => ns == nsB && n == "authsvc".toList }
 
 /-- `fileb`: the file is the controller's own copy of namespace b's secret; it exists iff b's
-ingress was converted before (`fu = 1`).  An ingress / gateway certificate taken from a file has
-no parsed certificate and the converter dereferences it: PANIC. -/
-def targetOf (st : SiteTok) (form fu : String) (r : Res) : String :=
+ingress was converted before (`fu = 1`); a local path carries no namespace, so nothing denies it
+(known finding, labels `…-file`). -/
+def targetOf (form fu : String) (r : Res) : String :=
   match r with
   | .obj ns _ => if ns = nsA then "own" else if ns = nsB then "foreign" else "none"
   | .file _ =>
-    if form = "fileb" && fu != "1" then "none"
-    else if st.site = .tls || st.site = .gwCert then "PANIC"
-    else if form = "fileb" then "foreign" else "file"
+    if form = "fileb" then (if fu = "1" then "foreign" else "none") else "file"
   | _ => "none"
 
 def handle (args : List String) (impl : String) : Verdict :=
@@ -208,7 +206,7 @@ def handle (args : List String) (impl : String) : Verdict :=
       -- 2 = a previous reconciliation ran with every key = allow, then the ConfigMap changed
       -- (an unchanged ConfigMap does not ask for a second conversion: the first one stands)
       let noResync := fu == "2" && cm == allAllow
-      let prev := if fu == "0" || noResync then initialBits
+      let prev := if fu == "0" then initialBits
                   else if fu == "2" then buildGlobalDynamic static allAllow else cur
       let bits := bitsSeenBy st.site prev cur
       let k := st.site.kind
@@ -219,10 +217,9 @@ def handle (args : List String) (impl : String) : Verdict :=
         let fromIng := src == "ing"
         let uses := siteUses st.site bits ex fromIng nsA value
         let reads := siteReads st.site bits ex fromIng nsA value
-        let t := targetOf st form fu uses
+        let t := targetOf form fu uses
         let r := !noResync && (match reads with | some (.obj ns _) => ns == nsB | _ => false)
-        let m := if t = "PANIC" then "PANIC"
-                 else "t=" ++ t ++ ";r=" ++ bit r ++ ";u=" ++ bit (t == "foreign") ++ ";b=" ++ showBits cur
+        let m := "t=" ++ t ++ ";r=" ++ bit r ++ ";u=" ++ bit (t == "foreign") ++ ";b=" ++ showBits cur
         let allowed := specAllowed static cm k
         -- the oracle looks at the IMPLEMENTATION's output only
         let fields := impl.splitOn ";"
